@@ -57,6 +57,9 @@ Init == \/ /\ prop = "C05" /\ n \in 1..MaxN /\ bounded \in BOOLEAN
                                    \* re-sampled point is h at THAT point.  lh_other_type: the Lipschitz constant given as a positive number that is not a
                                    \* Python float (int for the l2-norm, numpy.float32 for l1) - "a positive number" is all the guide asks for
                                    \cup (IF ~args THEN {"averaging", "lh_other_type"} ELSE {})
+                                   \* soft_restarts_adding_points: soft restarts that append interpolation points (restarts.increase_npt): the appended
+                                   \* point's stored objective needs h at the ABSOLUTE point like every other entry of the set
+                                   \cup (IF ~args /\ reg = "l1" /\ n >= 2 THEN {"soft_restarts_adding_points"} ELSE {})
                                    \* strong_regulariser: lambda three to four decades ABOVE |A|^2 ("lambda over several decades"), every component deep inside
                                    \* its kink interval (solution 0): the smoothed-FISTA step solver's theoretical iteration count exceeds its cap, so the
                                    \* smoothing parameter and the number of iterations actually run must come from the same (capped) count
